@@ -273,6 +273,26 @@ def check(wrapper):
     sup.update({k: norm(v) for k, v in cmd.items()})
     want_over = sorted(k for k, v in forced.items() if k in sup and sup[k] != v)
     o = drive.run(case, renders=True)
+    if o.arith is not None:
+        # the count must actually run with the effective values, not only record them
+        ar = o.arith
+        used = dict(arithmetic=ar.name if ar.name != 'integer' or eff['arithmetic'] == 'integer' else 'fixed')
+        want = dict(arithmetic=eff['arithmetic'] if not (eff['arithmetic'] == 'fixed' and eff.get('precision') == 0) else 'integer')
+        if ar.cls != 'Rational':
+            used['precision'] = ar.precision
+            want['precision'] = eff.get('precision')
+        if ar.cls == 'Guarded':
+            used['guard'] = ar.guard
+            want['guard'] = eff.get('guard')
+        if eff.get('display') is not None and ar.cls != 'Fixed':
+            used['display'] = ar.display
+            want['display'] = eff['display'] if ar.cls == 'Rational' else min(eff['display'], ar.precision + ar.guard)
+        elif eff.get('display') is not None:
+            used['display'] = ar.display
+            d = eff['display']
+            want['display'] = d if 0 <= d <= ar.precision else ar.precision
+        if used != want:
+            res.fail('used', 'used|' + base, 'the count runs with %r, the effective options are %r' % (used, want))
     if o.ok and o.stage == 'done' and o.exc is None:
         hdr = dict(HDR_OPT.findall(o.report.split('\tSeats:')[0]))
         got_unused = sorted(hdr.get('Unused options', '').split(', ')) if 'Unused options' in hdr else []
